@@ -294,6 +294,6 @@ pub fn def() -> PropertyDef {
         rule: "stream many-sites: programs with 2 ... 700 statements (assert! + jet, dbg!, unwrap; in main or in a function called twice), i.e. up to 933 tracked call sites with pairwise distinct texts: the number of distinct markers and of distinct marker texts must equal the number of sites. stream markers: generated programs (general and small family: call sites in main, in helper functions called 0 / 1 / several times, inside fold and loop bodies) rendered with varied layout (multi-line calls, one-line programs, tabs, CRLF, comments inside calls). Oracles: (a) for every witness assignment of the case the verdict with debug symbols equals the verdict without and the reference interpreter's; (b) markers = hidden CMRs of assertl nodes of the debug build's commit() other than the fail CMR of unwrap*: each is a key of debug_symbols(), its text equals modulo whitespace the source text of a tracked call site recorded by the renderer with byte offsets (for dbg! also the argument text), its kind is that site's kind, and per distinct call text the number of distinct markers equals the number of tracked sites reachable from main (so distinct sites have distinct markers and every reachable site has one); (c) for dbg! / unwrap_left / unwrap_right markers, map_value applied to the structural form of a generated value of the recorded type returns that value. evaluations = executions + markers checked. Non-trivial = >= 2 tracked call sites, at least one inside a function; distinct by digest.",
         assumptions: &["simplicity-lang 0.4.0 keeps its execution tracker private, so the value that arrives at a marker at run time is not observed; dbg!'s transparency is covered by (a)"],
         streams,
-        health: &[("markers", "site-inside-function", 100), ("markers", "map_value:checked", 100), ("markers", "site-inside-fold-body", 50), ("markers", "site-inside-loop-body", 50), ("markers", "site-in-function-called-several-times", 50), ("markers", "site-spans-several-lines", 500)],
+        health: &[("markers", "site-inside-function", 100), ("markers", "map_value:checked", 100), ("markers", "site-inside-fold-body", 25), ("markers", "site-inside-loop-body", 25), ("markers", "site-in-function-called-several-times", 20), ("markers", "site-spans-several-lines", 200)],
     }
 }
